@@ -1,4 +1,34 @@
-/- Line-protocol driver for C05: the result-type generation model, pydantic reference semantics, triggers. -/
+/- Line-protocol driver for C05: the result-type generation model, pydantic reference semantics, triggers (shared handler),
+   plus op `laxResp`: the acceptance predicate of the plain-tier strictness theorem (Properties/C05.lean,
+   `plain_accepted_imp_conformant`) evaluated on payloads, for operations inside the theorem's region `PlainOK`. -/
 import AriadneModel.Driver.ResultHandle
+import AriadneModel.Proofs.C05StrictDefs
 
-def main : IO Unit := Ariadne.Wire.loop Ariadne.ResultDriver.handle
+open Lean (Json)
+open Ariadne Ariadne.Gql Ariadne.ResultTypes
+
+namespace Ariadne.C05Driver
+
+def handle (j : Json) : Except String Json := do
+  let op ← Wire.fieldStr j "op"
+  match op with
+  | "laxResp" =>
+    -- for operation number `index`: null when it is outside `PlainOK`, else one Bool per payload
+    let env ← ResultDriver.decEnv j
+    let ops ← ResultDriver.decOps j
+    let idx ← Wire.fieldNat j "index"
+    let payloads ← (← GqlWire.arr j "payloads").mapM Wire.dec
+    match ops[idx]? with
+    | some o =>
+      match o.name, Validate.rootOf env.schema o with
+      | some n, some rt =>
+        if C01Plain.PlainOK env (ResultTypes.pascal n) rt o.sid o.sel {} then
+          pure (Json.arr (payloads.map fun p => Json.bool (C05Strict.laxResp env (ResultDriver.decLax j) rt o.sel p)).toArray)
+        else pure Json.null
+      | _, _ => pure Json.null
+    | none => throw "index out of range"
+  | _ => ResultDriver.handle j
+
+end Ariadne.C05Driver
+
+def main : IO Unit := Ariadne.Wire.loop Ariadne.C05Driver.handle
